@@ -279,7 +279,7 @@ class World:
             _set_edit_pos(w, o[3])
             return w
         if k == "TEdit":
-            w = self.TEdit(self.text(o[1], enc), self.text(o[2], enc), multiline=bool(o[3]))
+            w = self.TEdit(self.text(o[1], enc), self.text(o[2], enc), multiline=bool(o[3]), wrap=(o[5] if len(o) > 5 else "space"))
             w._vf_init(o[0])
             _set_edit_pos(w, o[4])
             return w
@@ -714,7 +714,107 @@ def _grid(canv):
 STEP_KEYS = ("left", "right", "up", "down", "home", "end", "x", "backspace", "delete")
 
 
-def observe_geometry(t, enc, size, max_press, max_move, seed, max_steps=0):
+STRUCT_OPS = ("focus", "lbfocus", "lbvalign", "lbdel", "lbins", "unfocus")
+FRAME_PARTS = ("body", "header", "footer")
+
+
+def _node(t, w, path):
+    for i in path:
+        w = children_of(t, w)[i - 1]
+        t = t["c"][i - 1]
+    return t, w
+
+
+def _with_sub(t, path, new):
+    """Copy of t with the subterm at path replaced."""
+    if not path:
+        return new
+    c = list(t["c"])
+    c[path[0] - 1] = _with_sub(c[path[0] - 1], path[1:], new)
+    return {"k": t["k"], "o": t["o"], "c": c}
+
+
+def _max_id(t):
+    return max([lt["o"][0] for lt, _bg in tagged_leaves(t)] or [0])
+
+
+def choose_step(rng, wd, w, tc, se):
+    """Draw the next step of a history into se (nothing is applied here): a key sent to the root, the application moving the
+    cursor of a leaf, or the application changing the structure: the focus of a container set by program, the focus of a
+    ListBox changed through its walker, its focus alignment changed, an item above its focus deleted / inserted, the whole
+    tree drawn once WITHOUT the focus (another pane had it)."""
+    movable = [(pid, lw) for pid, lw in sorted(wd.probes.items()) if lw.last is not None and hasattr(lw, "move_cursor_to_coords")]
+    conts = [(p, st, sw) for p, st, sw in walk_paths(tc, w) if st["c"] and st["k"] in ("Pile", "Columns", "GridFlow", "ListBox", "Frame")]
+    lbs = [x for x in conts if x[1]["k"] == "ListBox"]
+    r = rng.random()
+    if r < 0.45 or not (movable or conts):
+        se["key"] = rng.choice(STEP_KEYS)
+    elif (r < 0.62 and movable) or not conts:
+        pid, lw = rng.choice(movable)
+        se["pid"] = pid
+        if hasattr(lw, "set_edit_pos"):        # the application moves the cursor of an Edit
+            se["op"], se["x"] = "setpos", rng.randint(0, len(lw.edit_text))
+        else:                                  # ... of a probe
+            se["op"], se["x"], se["y"] = "probecur", rng.randrange(max(1, lw.last[0])), rng.randrange(max(1, lw.last[1]))
+    elif r < 0.67:
+        se["op"] = "unfocus"
+    else:
+        path, st, sw = rng.choice(lbs) if lbs and rng.random() < 0.7 else rng.choice(conts)
+        se["path"] = list(path)
+        n = len(st["c"])
+        ops = ["focus"]
+        if st["k"] == "ListBox":
+            fp = sw.focus_position
+            ops = ["focus", "lbfocus", "lbfocus", "lbvalign", "lbins"] + (["lbdel", "lbdel"] if fp > 0 else [])
+        se["op"] = rng.choice(ops)
+        if se["op"] in ("focus", "lbfocus"):
+            if st["k"] == "Frame":
+                se["n"] = rng.choice([0] + ([1] if st["o"][0] else []) + ([2] if st["o"][1] else []))
+            else:
+                se["n"] = rng.randrange(n)
+        elif se["op"] == "lbvalign":
+            se["s"] = rng.choice(("top", "middle", "bottom"))
+        elif se["op"] == "lbdel":
+            se["n"] = rng.randrange(fp)
+        elif se["op"] == "lbins":
+            se["n"], se["x"] = rng.randint(0, fp), rng.randrange(n)
+
+
+def apply_step(wd, w, tc, se, size, enc):
+    """Apply the step described by se to the widget tree w built from term tc -> the term after the step."""
+    op = se["op"]
+    if op == "key":
+        se["handled"] = 1 if w.keypress(size, se["key"]) is None else 0
+    elif op == "setpos":
+        wd.probes[se["pid"]].set_edit_pos(se["x"])
+    elif op == "probecur":
+        lw = wd.probes[se["pid"]]
+        lw.cur = (se["x"], se["y"])
+        lw._invalidate()
+    elif op == "unfocus":
+        w.render(size, False)
+    else:
+        path, n = se["path"], se["n"]
+        st, sw = _node(tc, w, path)
+        if op == "focus":
+            sw.focus_position = FRAME_PARTS[n] if st["k"] == "Frame" else n
+        elif op == "lbfocus":
+            sw.body.set_focus(n)
+        elif op == "lbvalign":
+            sw.set_focus_valign(se["s"])
+        elif op == "lbdel":
+            del sw.body[n]
+            tc = _with_sub(tc, path, {"k": st["k"], "o": st["o"], "c": st["c"][:n] + st["c"][n + 1:]})
+        elif op == "lbins":
+            new = renumber(st["c"][se["x"]], [_max_id(tc)])      # a copy of one of the items, its leaves numbered afresh
+            sw.body.insert(n, wd.build(new, enc))
+            tc = _with_sub(tc, path, {"k": st["k"], "o": st["o"], "c": st["c"][:n] + [new] + st["c"][n:]})
+        else:
+            raise ValueError(op)
+    return tc
+
+
+def observe_geometry(t, enc, size, max_press, max_move, seed, max_steps=0, max_hpress=0):
     """One C09 trace: the focused rendering, then a button-1 press and a move_cursor_to_coords per cell, each
     applied to a copy of the widget in the rendered state; then a history on a copy in the rendered state (the canvas of
     the last frame is held, as a screen holds it): keys sent to the root / the cursor of a leaf moved by the application,
@@ -737,13 +837,23 @@ def observe_geometry(t, enc, size, max_press, max_move, seed, max_steps=0):
         urwid.CanvasCache.clear()
         return w.render(size, True)
 
+    def settle(w):
+        """What a history does between two steps (see snapshot): the cursor is asked, the next frame is drawn."""
+        try:
+            if hasattr(w, "get_cursor_coords"):
+                w.get_cursor_coords(size)
+        except Exception:  # noqa: BLE001
+            pass
+        w.render(size, True)
+        focused_render(w)
+
     try:
         wd, w = fresh()
     except Exception as ex:  # noqa: BLE001
         tr["build_exc"] = f"{type(ex).__name__}: {str(ex)[:120]}"
         return tr
 
-    def snapshot(wd, w, e, with_acc, clear_first):
+    def snapshot(wd, w, e, with_acc, clear_first, t=t):
         """Fill e with the three views of the geometry of w in its present state: the cursor reported without rendering,
         the cursor of the focused rendering, the grid of painted ids with what every widget on the way was given.
         clear_first=False: get_cursor_coords and the first focused rendering see the caches as the history left them."""
@@ -828,7 +938,7 @@ def observe_geometry(t, enc, size, max_press, max_move, seed, max_steps=0):
             e["leaves"].append(info)
         return "", canv
 
-    e = {"t": "render"}
+    e = {"t": "render", "steps": 0}
     tr["ev"].append(e)
     err, canv = snapshot(wd, w, e, True, True)
     if err:
@@ -839,7 +949,7 @@ def observe_geometry(t, enc, size, max_press, max_move, seed, max_steps=0):
     cells = [(c, r) for r in range(len(grid)) for c in range(len(grid[0])) if grid[r][c] > 0]
     press_cells = cells if len(cells) <= max_press else rng.sample(cells, max_press)
     for col, row in press_cells:
-        pe = {"t": "press", "col": col, "row": row, "recv": [], "exc": ""}
+        pe = {"t": "press", "col": col, "row": row, "recv": [], "exc": "", "after": 0}
         del wd.log[:]
         try:
             w.mouse_event(size, "mouse press", 1, col, row, True)
@@ -897,38 +1007,58 @@ def observe_geometry(t, enc, size, max_press, max_move, seed, max_steps=0):
             tr["ev"].append(me)
     # ---- history --------------------------------------------------------------------------------------------------
     if max_steps > 0:
-        try:
+        def start():
             wd, w = fresh()
-            held = [focused_render(w)]            # the frame on the screen
-            if _grid(held[0]) != grid or not w.selectable():
+            return wd, w, focused_render(w)
+
+        try:
+            wd, w, frame0 = start()
+            held = [frame0]            # the frame on the screen
+            if _grid(frame0) != grid or not w.selectable():
                 return tr
         except Exception:  # noqa: BLE001
             return tr
+        tc, done = t, []               # the term as the history changed it (items deleted from / inserted into a ListBox); the steps so far
         for _ in range(max_steps):
-            se = {"t": "step", "op": "key", "key": "", "pid": 0, "x": 0, "y": 0, "handled": 0, "op_exc": ""}
-            movable = [(pid, lw) for pid, lw in sorted(wd.probes.items()) if lw.last is not None and hasattr(lw, "move_cursor_to_coords")]
-            r = rng.random()
+            se = {"t": "step", "op": "key", "key": "", "pid": 0, "x": 0, "y": 0, "handled": 0, "op_exc": "", "path": [], "n": 0, "s": ""}
             try:
-                if r < 0.7 or not movable:
-                    se["key"] = rng.choice(STEP_KEYS)
-                    se["handled"] = 1 if w.keypress(size, se["key"]) is None else 0
-                else:
-                    pid, lw = rng.choice(movable)
-                    se["pid"] = pid
-                    if hasattr(lw, "set_edit_pos"):        # the application moves the cursor of an Edit
-                        se["op"], se["x"] = "setpos", rng.randint(0, len(lw.edit_text))
-                        lw.set_edit_pos(se["x"])
-                    else:                                  # ... of a probe
-                        se["op"], se["x"], se["y"] = "probecur", rng.randrange(max(1, lw.last[0])), rng.randrange(max(1, lw.last[1]))
-                        lw.cur = (se["x"], se["y"])
-                        lw._invalidate()
+                choose_step(rng, wd, w, tc, se)
+                tc2 = apply_step(wd, w, tc, se, size, enc)
             except Exception as ex:  # noqa: BLE001  (a key that raises is not C09's business: the history ends here)
                 tr["step_exc"] = type(ex).__name__
                 break
-            err, canv = snapshot(wd, w, se, False, False)
+            err, canv = snapshot(wd, w, se, False, False, tc2)
             if err:
                 tr["step_exc"] = "render:" + err
                 break
+            tc = tc2
             held.append(canv)
             tr["ev"].append(se)
+            done.append(se)
+            if se["op"] in STRUCT_OPS and max_hpress > 0:
+                # the state reached by the history is hit-tested like the fresh one: a button-1 press per cell, each applied to a
+                # copy brought into the same state by the same steps (a press moves the focus and re-places the list)
+                g2 = se["grid"]
+                cells2 = [(c, r) for r in range(len(g2)) for c in range(len(g2[0])) if g2[r][c] > 0]
+                for col, row in (cells2 if len(cells2) <= max_hpress else rng.sample(cells2, max_hpress)):
+                    try:
+                        wd2, w2, _f = start()
+                        t2 = t
+                        for s0 in done:
+                            t2 = apply_step(wd2, w2, t2, dict(s0), size, enc)
+                            settle(w2)
+                        if _grid(focused_render(w2)) != g2:
+                            tr["replay_diverged"] = tr.get("replay_diverged", 0) + 1
+                            break
+                    except Exception:  # noqa: BLE001
+                        tr["replay_diverged"] = tr.get("replay_diverged", 0) + 1
+                        break
+                    pe = {"t": "press", "col": col, "row": row, "recv": [], "exc": "", "after": len(done)}
+                    del wd2.log[:]
+                    try:
+                        w2.mouse_event(size, "mouse press", 1, col, row, True)
+                    except Exception as ex:  # noqa: BLE001
+                        pe["exc"] = type(ex).__name__
+                    pe["recv"] = [[x[1], x[2], x[3]] for x in wd2.log if x[0] == "mouse"]
+                    tr["ev"].append(pe)
     return tr
